@@ -18,7 +18,7 @@ ASSUMPTIONS = [
     "Content-Length (an unframed HTTP/1.0 response can only be delimited by closing)",
 ]
 REQKINDS = [("HTTP/1.1", None), ("HTTP/1.1", "keep-alive"), ("HTTP/1.1", "close"), ("HTTP/1.0", None), ("HTTP/1.0", "keep-alive"), ("HTTP/1.0", "close")]
-PIECES = [[b"ab"], [], [b"ab", b"c"], [b"", b"ab"], [b"ab", b"", b"c"]]
+PIECES = [[b"ab"], [], [b"ab", b"c"], [b"", b"ab"], [b"ab", b"", b"c"], [b"c"]]
 CLMODES = ["exact", "absent", "short"]
 STATUSES = ["200 OK", "404 Not Found"]
 
@@ -30,7 +30,7 @@ def BOUND(tier):
 def RULE(tier):
     return ("real http.Server over FakeNet; 1-3 requests on one connection (free choice), pipelined in one segment or sent one after "
             "the other; per request: HTTP/1.0|1.1 x Connection absent|keep-alive|close, scripted WSGI app status 200|404, "
-            "Content-Length exact|absent|shorter than body, body pieces from 5 lists incl. empty pieces; server-side partial sends; "
+            "Content-Length exact|absent|shorter than body, body pieces from 6 lists incl. empty pieces and a one-byte body (declared length 0 when cut short); server-side partial sends; "
             "all executions with <= %d deviations. Oracle: the received byte stream parses (independent stdlib parser) into exactly "
             "the expected responses in request order with the app's status, X-Idx header and body (cut at a declared length), each "
             "self-delimiting unless the connection then closes, and EOF arrives iff the last answered request was not persistent." % BOUND(tier))
@@ -157,6 +157,8 @@ def harness(job, ch):
         pol.settle = True
         svc(6)
         eof = raw.rx_eof
+        import re as _re
+        stream = bytearray(_re.sub(rb"Date: [^\r]*\r\n", b"Date: -\r\n", bytes(stream)))   # the only volatile bytes on the wire
         # expectations
         def persistent(k):
             ver, conn = k
